@@ -1720,7 +1720,9 @@ func (c *Client) close() {
 
 // SetLabelFlag is referred in zclient, this func sets label flag
 func (c Client) SetLabelFlag(msgFlags *MessageFlag, nexthop *Nexthop) {
-	if c.Version == 6 && c.Software.name == "frr" {
+	// ZAPI_NEXTHOP_FLAG_LABEL (and the per-nexthop flags octet that carries it)
+	// exists since frr7.3, which removed ZAPI_MESSAGE_LABEL at the same time.
+	if c.Version == 6 && c.Software.name == "frr" && c.Software.version >= 7.3 {
 		nexthop.flags |= zapiNexthopFlagLabel
 	} else if c.Version > 4 {
 		*msgFlags |= MessageLabel
